@@ -29,6 +29,7 @@ type GenConfig struct {
 	Choices         int
 	Sequential      bool // one op per round
 	SameIKIdentical bool // ops sharing an idempotency key are byte-identical requests
+	MetaFirstPct    int  // share of histories that start with metadata writes only (no transaction yet)
 }
 
 func DefaultConfig() GenConfig {
@@ -133,6 +134,18 @@ func GenPlan(t *rapid.T, cfg GenConfig) *Plan {
 		p.Ops = append(p.Ops, op)
 		return &p.Ops[len(p.Ops)-1]
 	}
+	// some histories begin with metadata writes only: a log without any transaction
+	if cfg.MetaFirstPct > 0 && rapid.IntRange(0, 99).Draw(t, "metaFirst") < cfg.MetaFirstPct {
+		for i, n := 0, rapid.IntRange(1, 3).Draw(t, "nMetaFirst"); i < n; i++ {
+			o := add(Op{Kind: OpSaveMeta, TargetType: ledger.MetaTargetTypeAccount, TargetAcc: rapid.SampledFrom(cfg.Accounts).Draw(t, "mfAcc")})
+			o.Barrier = len(p.Ops) - 1
+			o.Meta = map[string]string{"tag": o.Tag, "k1": "first"}
+			if rapid.Bool().Draw(t, "mfDelete") {
+				d := add(Op{Kind: OpDeleteMeta, TargetType: ledger.MetaTargetTypeAccount, TargetAcc: o.TargetAcc, Key: "k1"})
+				d.Barrier = len(p.Ops) - 1
+			}
+		}
+	}
 	// prefix: fund two or three accounts, point the metadata lookup at one of them
 	nFund := rapid.IntRange(2, 3).Draw(t, "nFund")
 	for i := 0; i < nFund; i++ {
@@ -220,6 +233,9 @@ func GenPlan(t *rapid.T, cfg GenConfig) *Plan {
 		if rapid.Bool().Draw(t, "crash") {
 			p.CrashAt = append(p.CrashAt, rapid.IntRange(0, 120).Draw(t, "crashAt"))
 		}
+	}
+	if cfg.Faults > 0 {
+		p.DeathGrace = rapid.SampledFrom([]int{0, 0, 2, 6}).Draw(t, "deathGrace")
 	}
 	for i := 0; i < cfg.Faults; i++ {
 		if rapid.IntRange(0, 2).Draw(t, "fault") == 0 {
